@@ -16,7 +16,6 @@ Definition repN {A} (n : N) (l : list A) : list A := rep (N.to_nat n) l.
 Definition obs_resp (c : cfg) : T :=
   match respond c with
   | Out ws b => Tl [Tlist Tw ws; Tbool b]
-  | Crash => Tl [Tn (-1)%Z]
   end.
 
 (* one connection: the responses to a sequence of requests *)
@@ -36,5 +35,4 @@ Definition obs_case (cs : list cfg) (ps : list (bool * list N)) : T :=
 Definition obs_case_verbose (cs : list cfg) : T :=
   Tlist (fun c => match respond c with
                   | Out ws b => Tl [Tlist Tb ws; Tbool b]
-                  | Crash => Tl [Tn (-1)%Z]
                   end) cs.
